@@ -1884,6 +1884,11 @@ func (p *context) currentFunctionSyntax() ast.Node {
 		return nil
 	}
 	fn := p.goFn
+	// A function literal shares the local type declarations of the function
+	// that encloses it (and, in an instance, its type arguments).
+	for fn.Parent() != nil {
+		fn = fn.Parent()
+	}
 	if origin := fn.Origin(); origin != nil {
 		fn = origin
 	}
